@@ -169,4 +169,110 @@ def floorDiv (a b : Int) : Except Exc Int :=
 def floorMod (a b : Int) : Except Exc Int :=
   if b = 0 then .error .zeroDivisionError else .ok (Int.fmod a b)
 
+/-! ### additions for stateful classes (`NodePathParser`, C15): `None`-or-value, `slice` objects, `try/except`,
+    `int(str)`, `str.find`, `sub in string` -/
+
+/-- using `None` where a `str` / `int` / `list` is required (`None + 'a'`, `len(None)`, `None[0]`, `None >= 0`,
+    `int(None)`): `TypeError`.  A value of Python type "`T` or `None`" is an `Option T`. -/
+def unwrap {α : Type} : Option α → Except Exc α
+  | some a => .ok a
+  | none => .error .typeError
+
+/-- a value that is a Python `int` or a `slice(start, stop, step)` object whose three members are `int` or `None` -/
+inductive IntOrSlice where
+  | int (i : Int)
+  | slice (start stop step : Option Int)
+  deriving DecidableEq, Repr, Inhabited
+
+/-- `slice(*xs)`: one argument is the stop, two are start and stop, three start, stop and step; `slice()` with no
+    or with more than three arguments is a `TypeError` -/
+def sliceOfList : List (Option Int) → Except Exc IntOrSlice
+  | [b] => .ok (.slice none b none)
+  | [a, b] => .ok (.slice a b none)
+  | [a, b, c] => .ok (.slice a b c)
+  | _ => .error .typeError
+
+/-- `try: body  except E: handler` where the handler does not depend on the state (the translator accepts only a
+    handler that is one `raise` whose arguments cannot raise): `catches` recognises the exceptions `E` covers -/
+def tryExcept {α : Type} (body : Except Exc α) (catches : Exc → Bool) (handler : Except Exc α) : Except Exc α :=
+  match body with
+  | .error e => if catches e then handler else .error e
+  | .ok a => .ok a
+
+/-- `needle in hay` for two `str`: `needle` occurs as a contiguous substring (the empty string always does) -/
+def strContains : (hay needle : Str) → Bool
+  | [], needle => needle.isEmpty
+  | c :: t, needle => needle.isPrefixOf (c :: t) || strContains t needle
+
+/-- lowest index at which `needle` occurs in `hay` at or after `i` (helper of `strFind`) -/
+def strFindFrom (needle : Str) : Str → Nat → Int
+  | [], i => if needle.isEmpty then (i : Int) else -1
+  | c :: t, i => if needle.isPrefixOf (c :: t) then (i : Int) else strFindFrom needle t (i + 1)
+
+/-- `hay.find(needle)`: the lowest index of an occurrence, `-1` when there is none -/
+def strFind (hay needle : Str) : Int := strFindFrom needle hay 0
+
+/-- first code points of the blocks of ten consecutive decimal digits 0-9 outside ASCII (Unicode 15.0.0, the
+    `unicodedata` of CPython 3.12: the characters with a `decimal` property, i.e. general category Nd; every block
+    is `zero .. zero + 9` in order).  `harness/props/c15.py` compares this table with the running interpreter. -/
+def decimalZeros : List Nat :=
+  [0x660, 0x6f0, 0x7c0, 0x966, 0x9e6, 0xa66, 0xae6, 0xb66,
+   0xbe6, 0xc66, 0xce6, 0xd66, 0xde6, 0xe50, 0xed0, 0xf20,
+   0x1040, 0x1090, 0x17e0, 0x1810, 0x1946, 0x19d0, 0x1a80, 0x1a90,
+   0x1b50, 0x1bb0, 0x1c40, 0x1c50, 0xa620, 0xa8d0, 0xa900, 0xa9d0,
+   0xa9f0, 0xaa50, 0xabf0, 0xff10, 0x104a0, 0x10d30, 0x11066, 0x110f0,
+   0x11136, 0x111d0, 0x112f0, 0x11450, 0x114d0, 0x11650, 0x116c0, 0x11730,
+   0x118e0, 0x11950, 0x11c50, 0x11d50, 0x11da0, 0x11f50, 0x16a60, 0x16ac0,
+   0x16b50, 0x1d7ce, 0x1d7d8, 0x1d7e2, 0x1d7ec, 0x1d7f6, 0x1e140, 0x1e2f0,
+   0x1e4f0, 0x1e950, 0x1fbf0]
+
+/-- `Py_UNICODE_TODECIMAL`: the decimal digit value of a character, ASCII or not -/
+def decimalDigit? (c : Char) : Option Nat :=
+  let n := c.toNat
+  if 48 ≤ n && n ≤ 57 then some (n - 48)
+  else match decimalZeros.find? (fun z => z ≤ n && n ≤ z + 9) with
+    | some z => some (n - z)
+    | none => none
+
+/-- the characters `int()` skips at both ends of its argument: C `isspace` of the ASCII range (9-13, 32) and the
+    non-ASCII `str.isspace` characters (which `_PyUnicode_TransformDecimalAndSpaceToASCII` turns into blanks).
+    The ASCII separators 0x1c-0x1f are `str.isspace` but NOT skipped by `int()`. -/
+def intIsSpace (c : Char) : Bool :=
+  let n := c.toNat
+  (9 ≤ n && n ≤ 13) || n == 32 || (127 ≤ n && isSpaceChar c)
+
+/-- `digit ('_'? digit)*`: the digit values, most significant first (`none`: not of that shape) -/
+def intDigits : List Char → Option (List Nat)
+  | [] => none
+  | c :: rest =>
+    match decimalDigit? c with
+    | none => none
+    | some d =>
+      match rest with
+      | [] => some [d]
+      | '_' :: rest' => (intDigits rest').map (d :: ·)
+      | r :: rest' => (intDigits (r :: rest')).map (d :: ·)
+
+/-- `sys.get_int_max_str_digits()` of an interpreter started without `-X int_max_str_digits` /
+    `PYTHONINTMAXSTRDIGITS` (CPython >= 3.11, and the security releases of 3.7-3.10) -/
+def intMaxStrDigits : Nat := 4300
+
+/-- the digits of `int(s)` after blanks and sign are removed; `neg`: a `-` was read -/
+def intOfBody (neg : Bool) (body : Str) : Except Exc Int :=
+  match intDigits body with
+  | none => .error .valueError
+  | some ds =>
+    if ds.length > intMaxStrDigits then .error .valueError
+    else .ok (if neg then -((ds.foldl (fun a d => 10 * a + d) 0 : Nat) : Int)
+              else ((ds.foldl (fun a d => 10 * a + d) 0 : Nat) : Int))
+
+/-- `int(s)` for a `str` (base 10): optional blanks, an optional sign `+` / `-`, decimal digits (ASCII or any Unicode
+    Nd character) with single underscores allowed between digits, optional blanks; `ValueError` otherwise, and
+    `ValueError` when there are more than `intMaxStrDigits` digits (underscores and sign not counted). -/
+def intOfStr (s : Str) : Except Exc Int :=
+  match ((s.dropWhile intIsSpace).reverse.dropWhile intIsSpace).reverse with
+  | '-' :: r => intOfBody true r
+  | '+' :: r => intOfBody false r
+  | r => intOfBody false r
+
 end Py
